@@ -54,6 +54,10 @@ class Kinds:
                     red_on = f.value
             if red_on is not None and _axis1(e) and self.kind(red_on, depth + 1) == "MAT":
                 return "COL" if _keepdims(e) else "ROWVEC"
+            if red_on is not None and not any(k.arg == "axis" for k in e.keywords) and len(e.args) <= (
+                    1 if isinstance(f.value, ast.Name) and f.value.id in ("np", "numpy") else 0) \
+                    and self.kind(red_on, depth + 1) == "MAT":
+                return "TOTAL"      # one number over ALL rows of the matrix
             if isinstance(f, ast.Attribute) and f.attr == "reshape" and self.kind(f.value, depth + 1) == "ROWVEC" \
                     and [ast.unparse(a).replace(" ", "") for a in e.args] in (["-1", "1"], ["(-1,1)"]):
                 return "COL"
@@ -80,7 +84,7 @@ class Kinds:
         for n in ast.walk(self.fnode):
             if isinstance(n, ast.BinOp) and isinstance(n.op, (ast.Mult, ast.Div, ast.Add, ast.Sub)):
                 l, r = self.kind(n.left), self.kind(n.right)
-                if {l, r} == {"ROWVEC", "MAT"}:
+                if {l, r} == {"ROWVEC", "MAT"} or {l, r} == {"TOTAL", "MAT"}:
                     out.append(n)
                 elif {l, r} == {"COL", "MAT"}:
                     ok.append(n)
